@@ -26,8 +26,8 @@ impl Prop for C10 {
 
     fn profiles(tier: Tier) -> Vec<Profile> {
         match tier {
-            Tier::Quick => vec![prof("mixed", 120_000), prof("twins", 60_000)],
-            Tier::Thorough => vec![prof("mixed", 1_000_000), prof("twins", 500_000)],
+            Tier::Quick => vec![prof("mixed", 120_000), prof("twins", 60_000), prof("capi", 6_000)],
+            Tier::Thorough => vec![prof("mixed", 1_000_000), prof("twins", 500_000), prof("capi", 80_000)],
         }
     }
 
@@ -51,6 +51,11 @@ impl Prop for C10 {
         subj.p_trans[10] = 0.6;
         let mut neigh = subj.clone();
         neigh.prob_style = 0;
+        let capi = profile == "capi";
+        if capi {
+            // everything deterministic: the subject alone and next to its neighbours, both through the C API
+            neigh.prob_style = 1;
+        }
         let hp = HistParams {
             min_calls: 2,
             max_calls: 40,
@@ -81,6 +86,9 @@ impl Prop for C10 {
                 }
                 let mut machines = neighbours;
                 machines.insert(pos, s);
+                if capi {
+                    machines = machines.into_iter().map(crate::props::c20::clock_independent).collect();
+                }
                 C10Case {
                     case: FwCase {
                         machines,
@@ -88,7 +96,7 @@ impl Prop for C10 {
                         max_blocking_frac: Fx(0.0),
                         start,
                         words,
-                        seed,
+                        seed: if capi { crate::props::CAPI_MARK } else { seed },
                         calls,
                     },
                     subject: pos,
@@ -124,6 +132,10 @@ impl Prop for C10 {
                 .collect(),
             ..case.clone()
         };
+        if case.seed == crate::props::CAPI_MARK {
+            crate::props::capi_pass(case, obs)?;
+            crate::props::capi_pass(&solo_case, obs)?;
+        }
         let solo_machine = vec![machines[subj].clone()];
         let mut comb = FwRun::new(case, machines, Some(50_000_000))
             .map_err(|e| Failure { signature: "framework-new-rejects-validated-machines".into(), detail: e })?;
